@@ -16,6 +16,8 @@ connection ids = creation order); queries and files are opaque tokens (the harne
   `addtimeout`   the sends of every suspended add hit the write time-out: the library closes the connection
                  (`Op.closed`), then the add resumes with the error (`SOp.addEnd`)
   `pconn n`      user n opens a peer connection to us: no effect on the tree or on what is written     → `ok`
+  `creds n`      `settings.credentials.username := n` during the session (`SOp.credentials`): the session's name, and
+                 with it what is forwarded / answered, is unchanged                                     → `ok`
   `closebegin c` connection c is reported CLOSING (`SOp.closeBegin`); its CLOSED notification is a later `close c`.
                  status `ok` | `no-conn` (not registered, or closing already). While a connection is closing its remote
                  end delivers nothing: `search c …`, `level c …`, `root c …` answer `no-conn`
@@ -171,6 +173,12 @@ def handleLine (d : DS) (line : String) : DS × String :=
     | none => (d, s!"bad-op {render d.s.d [] none}")
   | ["pconn", n] =>
     (d, (if n.toNat?.isSome then "ok " else "bad-op ") ++ render d.s.d [] none)
+  | ["creds", n] =>
+    match n.toNat? with
+    | some n =>
+      let s' := stepS d.env d.s (.credentials n)
+      ({ d with s := s' }, s!"ok {render s'.d [] none}")
+    | none => (d, s!"bad-op {render d.s.d [] none}")
   | ws =>
     -- the remote end of a closing connection is gone: it announces nothing any more
     let silent : Bool := match ws with
